@@ -12,13 +12,10 @@ theorem enc2_inj {a b a' b' : Bytes} (h : enc2 a b = enc2 a' b') : a = a' ∧ b 
 theorem dec2_enc2 (a b : Bytes) : dec2 (enc2 a b) = some (a, b) := by
   simp [dec2, enc2]
 
-theorem toyIdeal (nfc : String → String) (hn : ∀ s, nfc (nfc s) = nfc s) : (toyCrypto nfc).Ideal where
+theorem toyIdeal (nfc : PyStr → PyStr) (hn : ∀ s, nfc (nfc s) = nfc s)
+    (he : ∀ s, encodable (nfc s) = encodable s) : (toyCrypto nfc).Ideal where
   nfc_idem := hn
-  enc_inj := by
-    intro s t h
-    simp only [toyCrypto] at h
-    apply String.toList_inj.mp
-    exact (List.map_inj_right (fun a b hab => Char.toNat_inj.mp hab)).mp h
+  nfc_encodable := he
   pake := by
     intro pw idS r pw' id' r' hr
     simp only [toyCrypto, dec2_enc2]
@@ -55,14 +52,21 @@ theorem toyIdeal (nfc : String → String) (hn : ∀ s, nfc (nfc s) = nfc s) : (
 
 /-- a normaliser that is not the identity: the decomposed spelling of Å (A + U+030A) is mapped to
     the composed one (U+00C5) -/
-def sampleNfc (s : String) : String := if s = "A\u030a" then "\u00c5" else s
+def sampleNfc (s : PyStr) : PyStr := if s = [0x41, 0x30a] then [0xc5] else s
 
-theorem sampleNfc_idem (s : String) : sampleNfc (sampleNfc s) = sampleNfc s := by
+theorem sampleNfc_idem (s : PyStr) : sampleNfc (sampleNfc s) = sampleNfc s := by
   unfold sampleNfc
-  by_cases h : s = "A\u030a"
+  by_cases h : s = [0x41, 0x30a]
   · simp [h]
   · simp [h]
 
-theorem sampleIdeal : (toyCrypto sampleNfc).Ideal := toyIdeal sampleNfc sampleNfc_idem
+/-- it neither removes nor creates a surrogate -/
+theorem sampleNfc_encodable (s : PyStr) : encodable (sampleNfc s) = encodable s := by
+  unfold sampleNfc
+  by_cases h : s = [0x41, 0x30a]
+  · subst h; decide
+  · simp [h]
+
+theorem sampleIdeal : (toyCrypto sampleNfc).Ideal := toyIdeal sampleNfc sampleNfc_idem sampleNfc_encodable
 
 end WV.C01
